@@ -261,6 +261,16 @@ def _file_naming(ck, rule="C08.2"):
     fn = p.find_method("_MultiPassWorkflowCoordinator", "createAdditionalOutputFile")
     rets = [pa for pa in explore(ck, fn) if pa.outcome == "return"]
     if len(rets) != 1:
+        # positively recognised: on some path the "additional file" is the main output stream itself
+        main_stream = (self_attr("args", "outputFile"), ("ext", "sys.stdout"), V("sys.stdout"), T.mk_attr(V("sys"), "stdout"))
+        for pa in rets:
+            if pa.value in main_stream:
+                ck.violation(rule, "createAdditionalOutputFile:stream", where(fn, pa.node),
+                             "on this path the additional XMAP is written into the main output stream itself (no file of its own is "
+                             "opened): the first- / second-pass records appear in the main output, in front of its own header - more than "
+                             "one record per query there, and the reader returns the records of all XMAPs concatenated",
+                             found=f"return {T.show(pa.value)}", required="open(<stem>_<n><ext>, 'w') on every path")
+                return
         raise AnalysisError(f"{fn.where}: expected a single return")
     v = rets[0].value
     w = where(fn, rets[0].node)
